@@ -411,6 +411,10 @@ carquet_status_t carquet_batch_reader_next(
             /* No nulls in REQUIRED columns */
             size_t bitmap_size = ((size_t)col_data->num_values + 7) / 8;
             col_data->null_bitmap = calloc(1, bitmap_size);  /* All zeros = no nulls */
+            if (!col_data->null_bitmap) {
+                read_error = true;
+                continue;
+            }
 
             /* Mark page as consumed */
             col_reader->page_values_read = col_reader->page_num_values;
@@ -446,17 +450,27 @@ carquet_status_t carquet_batch_reader_next(
             /* Allocate null bitmap */
             size_t bitmap_size = ((size_t)rows_to_read + 7) / 8;
             col_data->null_bitmap = calloc(1, bitmap_size);
+            if (!col_data->null_bitmap) {
+                read_error = true;
+                continue;
+            }
 
             /* Read values */
             int16_t* def_levels = NULL;
             if (max_def > 0) {
                 def_levels = malloc(sizeof(int16_t) * (size_t)rows_to_read);
+                if (!def_levels) {
+                    read_error = true;
+                    continue;
+                }
             }
 
             int64_t values_read = carquet_column_read_batch(
                 col_reader, col_data->data, rows_to_read, def_levels, NULL);
 
-            if (values_read < 0) {
+            /* A short read means a page load failed after partial progress (or the
+             * column holds fewer values than column 0): the batch would be ragged */
+            if (values_read < rows_to_read) {
                 read_error = true;
                 free(def_levels);
                 continue;
